@@ -54,6 +54,7 @@ type State struct {
 	top      string              // allocation boundary: every reference allocated so far is < top
 	top0     string              // its value at function entry
 	nonNil   map[*types.Var]bool // tree maps known to be non-nil (created by a literal / make, only index-assigned since)
+	preval   map[*ast.CallExpr]string // nested calls of helpers without a contract, already executed through their bodies
 }
 
 func (s *State) clone() *State {
@@ -102,6 +103,12 @@ func (s *State) clone() *State {
 	n.nonNil = map[*types.Var]bool{}
 	for k, v := range s.nonNil {
 		n.nonNil[k] = v
+	}
+	if len(s.preval) > 0 {
+		n.preval = map[*ast.CallExpr]string{}
+		for k, v := range s.preval {
+			n.preval[k] = v
+		}
 	}
 	return n
 }
@@ -156,6 +163,7 @@ func (c *Ctx) with(label string, brk, cont func(*State)) *Ctx {
 type Exec struct {
 	w        *World
 	fi       *FuncInfo
+	lapsed   map[string]string
 	obs      []*Ob
 	n        int
 	loopOrd  map[ast.Node]int
@@ -664,6 +672,7 @@ func (e *Exec) calleeOf(c *ast.CallExpr, info *types.Info) *FuncInfo {
 
 type FuncResult struct {
 	Func        *FuncInfo
+	Lapsed      map[string]string // untagged invariants that could not be resolved (a local they name is gone): left out
 	Obs         []*Ob
 	Paths       int
 	Unsupported string
@@ -858,6 +867,7 @@ func verifyFunc(w *World, fi *FuncInfo, sweep bool) (res *FuncResult) {
 		fr.ret(st, vals)
 	})
 	res.Obs = e.obs
+	res.Lapsed = e.lapsed
 	res.Paths = e.npaths
 	for a := range e.assumed {
 		res.Assumed = append(res.Assumed, a)
